@@ -96,3 +96,27 @@ reg("C03", "E1-product",
     "Pool tasks are independent (state=None, disjoint files): completion permutations cover all pool schedules. "
     "Key parts contain no '/'.",
     "DESIGN.md §4 C03")
+
+reg("C04", "E3-fault-subsets",
+    "exhaustive enumeration of upload-failure subsets x directory orders x abort points on the real transfer, closure invariant after every upload event",
+    "6 (thorough 7) tree sets (single, disjoint, sharing a file, nested subset, one file under two paths, three "
+    "pairwise-sharing) x both destination classes x with/without remote index x closed/expanded request x empty/"
+    "partially filled destination x every permutation of the directory processing order (order seam) x every "
+    "subset of failing uploads (2^n, n <= 7) and an abort at every upload event; plus sources that miss a listed "
+    "file. After every upload event and at the end: every directory object in the destination has all files of "
+    "its true listing; withheld directories are reported failed; a fault-free retry with the same index "
+    "completes the destination. ~10^4 executions (quick).",
+    "Upload failure = OSError before anything is written; abort = BaseException at an upload event (kill at "
+    "system-call granularity is C15's S3 scenario). Source store local. <= 3 directories per request.",
+    "DESIGN.md §4 C04")
+
+reg("C11", "E3-fault-subsets",
+    "exhaustive enumeration of request shapes x source/destination contents x upload-failure subsets x corrupt sources under verify; TransferResult vs re-hashed destination listing",
+    "3 (thorough 6) tree sets x {files, shallow dir, closed, expanded} x source {complete, file missing, dir "
+    "object missing} x destination {empty, partial, complete} x both destination classes x every subset of "
+    "failing uploads; under verify every subset of corrupt source files. Oracle: transferred and failed are "
+    "disjoint and partition the objects new to the destination; transferred => present with right bytes; "
+    "absent => failed or missing on both sides; present-before => neither reported nor re-sent; source byte "
+    "snapshot unchanged; verify leaves no mismatching object.",
+    "Corrupt sources only under verify (as the property quantifies). Upload failure = OSError before writing.",
+    "DESIGN.md §4 C11")
